@@ -56,7 +56,7 @@ CURATED = [
     ("F3: NONE then COMBINED on one object", CTOR0, [SETUP, SOLVE, S("ext", 3), SETUP, SOLVE]),
     ("F5: COMBINED, second solve without setup", dict(CTOR0, ext=3), [SETUP, SOLVE, S("misc", 4), SOLVE, SOLVE]),
     ("F20: COMBINED with FMG, second solve after a switch (the start-up must run in the re-armed mode)", dict(CTOR0, ext=3, fmg=True, L=3), [SETUP, SOLVE, SOLVE]),
-    ("F20: COMBINED with FMG, four levels", dict(CTOR0, ext=3, fmg=True, L=4), [SETUP, SOLVE, SOLVE, SETUP, SOLVE]),
+    ("F20: COMBINED with FMG, solve twice, set up again, solve", dict(CTOR0, ext=3, fmg=True, L=2), [SETUP, SOLVE, SOLVE, SETUP, SOLVE]),
     ("F4/F6: zero-iteration solve after a real one", CTOR0, [SETUP, SOLVE, S("maxIter", 0), SOLVE]),
     ("F6: both tolerances off", dict(CTOR0, maxIter=2), [SETUP, S("absOn", False), S("relOn", False), SOLVE, S("absOn", True), SOLVE]),
     ("F8: FMG with two levels on a used object", dict(CTOR0, fmg=True, L=2), [SETUP, SOLVE, S("maxIter", 0), SOLVE]),
